@@ -47,6 +47,9 @@ SN_MK = {'x': 'a["', 'foo': '.foo[bar=baz]', 'link': 'link[foo=bar href]/', 'rep
 # second tables with the same names (same size) but other definitions: a hidden memo with too weak a key would mix them up
 SN_CSS2 = {'mten': 'margin:20', 'gp': 'gap:3', 'bxsh': 'box-shadow:none', 'zz': 'z-index:7'}
 SN_MK2 = {'x': 'b', 'foo': 'i.bar', 'link': 'link[x]', 'rep': 'p*2'}
+# malformed user definitions of names that built-in aliases go *through* (input:* -> inp, link:* -> link, meta:edge ->
+# meta:compat -> meta, src:mt -> source:media -> source): the parser's error is raised inside nested snippet resolution
+SN_BAD = {'inp': "input[name='${1}]", 'link': 'link[a="]', 'meta': 'meta["', 'source': "source['"}
 
 
 def _m(**kw):
@@ -74,9 +77,20 @@ MK_CFGS = [
     _m(text=['x1', 'x2'], snippets=SN_MK, options={'output.reverseAttributes': True, 'output.selfClosingStyle': 'xhtml'}),
     _m(syntax='slim', variables={'charset': 'ru-RU', 'lang': 'ru'}),
     _m(snippets=SN_MK2),
+    _m(snippets=SN_BAD),
 ]
+# probes of the markup x markup block of independent-calls (a subset of MK_ABBRS)
+MK_PROBES = ['ul>li.item$*2', 'a', 'x', 'foo[a=b]', 'link:css', 'input:email', 'meta:edge', 'src:mt>b', 'label>input',
+             'div.b>div.-e_m.c']
+# markup abbreviations over snippet-backed elements for the shared-cache histories: decorated (children, attributes,
+# text, repeaters) and bare forms of the same aliases
+MKC_ABBRS = ['doc>p', 'doc', 'a.x', 'a', 'a{t}', 'a[href=u title]>b', 'ul>li*2>a.k', 'link:css', 'link:css[media=print]',
+             'input:email#i', 'input:email', 'inp', '!', '!>p', 'img.k/', 'img', 'ri:a>b', 'ri:a', 'btn:s{go}', 'btn:s',
+             'tarea:c>{x}', 'c{y}', 'x>p', 'foo']
+MKC_CFGS = [0, 3, 5, 6, 9, 11]      # indices into MK_CFGS: html, BEM, jsx + comments, pug + text, user table + reverse, 2nd user table
 MK_ABBRS = ['ul>li.item$*2', 'a', 'ul>li*', 'div.b>div.-e_m.c', 'x', 'foo[a=b]', 'link:css', 'a)', 'a[b="c', 'label>input',
-            'img[src="$#"]*', 'xsl:variable[name=a select=b]>x', '!', 'x>p', '[charset=${charset}]{${lang}}', 'rep+img/', '']
+            'img[src="$#"]*', 'xsl:variable[name=a select=b]>x', '!', 'x>p', '[charset=${charset}]{${lang}}', 'rep+img/', '',
+            'input:email', 'meta:edge', 'src:mt>b']
 ST_CFGS = [
     _s(),
     _s(options={'stylesheet.intUnit': 'pt', 'stylesheet.floatUnit': 'rem'}),
@@ -312,8 +326,8 @@ def gen_independent():
     """no shared argument at all (fresh dicts, no cache): only module-level state could link the calls"""
     for c1 in MK_CFGS:
         for a1 in MK_ABBRS:
-            for c2 in MK_CFGS:
-                for a2 in MK_ABBRS[:8]:
+            for c2 in (MK_CFGS[i] for i in (0, 1, 3, 8, 11, 12)):
+                for a2 in MK_PROBES:
                     yield [_step(a1, c1)], _step(a2, c2)
     # stylesheet call first, markup probe; markup call first, stylesheet probe (probe via a fresh private cache: fast path)
     for c1 in ST_CFGS:
@@ -333,14 +347,82 @@ def gen_independent():
                     yield [_step(a1, c1)], _step(a2, c2)
 
 
+def gen_markup_cache():
+    """markup: a call and then a probe that share a `cache` dict (as two fresh dicts, as one dict, as one Config): every
+    ordered pair of the snippet-backed abbreviations, same configuration"""
+    for ci in MKC_CFGS:
+        c = MK_CFGS[ci]
+        for a1 in MKC_ABBRS:
+            for a2 in MKC_ABBRS:
+                yield [_step(a1, c, cache=0)], _step(a2, c, cache=0)
+                yield [_step(a1, c, 'dict', obj=0, cache=0)], _step(a2, c, 'dict', obj=0, cache=0)
+                yield [_step(a1, c, 'Config', obj=0, cache=0)], _step(a2, c, 'Config', obj=0, cache=0)
+    # the same cache used by a stylesheet call in between / before
+    for a1 in MKC_ABBRS:
+        yield [_step('p10', ST_CFGS[0], cache=0), _step(a1, MK_CFGS[0], cache=0)], _step('p10+zom', ST_CFGS[0], cache=0)
+        yield [_step(a1, MK_CFGS[0], cache=0), _step('m10', ST_CFGS[0], cache=0)], _step(a1.split('>')[0].split('.')[0], MK_CFGS[0], cache=0)
+
+
+def builtin_chains():
+    """[(name, [names of other built-in html snippets reachable from its definition])] from the raw html table (own analysis
+    of the definition texts)"""
+    import re
+    from emmet.snippets.html import snippets as raw
+    table = {}
+    for k, v in raw.items():
+        for part in k.split('|'):
+            table[part] = v
+
+    def refs(defn):
+        flat = re.sub(r'\[[^\]]*\]|\{[^}]*\}', '', defn)
+        out = set()
+        for tok in re.split(r'[>+^()]', flat):
+            m = re.match(r'[A-Za-z!][\w:!-]*', tok.strip())
+            if m and m.group(0) in table:
+                out.add(m.group(0))
+        return out
+
+    res = []
+    for n in sorted(table):
+        seen, todo = set(), [n]
+        while todo:
+            for r in sorted(refs(table[todo.pop()])):
+                if r != n and r not in seen:
+                    seen.add(r)
+                    todo.append(r)
+        if seen:
+            res.append((n, sorted(seen)))
+    return res
+
+
+def gen_nested_raise():
+    """a call that raises *inside nested snippet resolution* -- built-in alias N whose definition goes through another
+    built-in name K, with K redefined by a malformed user snippet -- then probes of N, of K and of every other name on
+    N's chains with a default configuration (fresh dict); also through one shared cache / one Config for the raising call"""
+    html = MK_CFGS[0]
+    for n, reach in builtin_chains():
+        for k in reach:
+            bad = _m(snippets={k: 'zz["'})
+            for probe in [n] + reach:
+                yield [_step(n, bad)], _step(probe, html)
+            yield [_step(n + '>b', bad, 'Config', obj=0), _step(n, bad, 'Config', obj=0)], _step(n + '.k', html)
+
+
+def _markup_cache_id(cfg):
+    # one markup cache per markup snippet table (ids 20..), like the stylesheet caches
+    return 20 + sorted({_snippets_key(c) for c in MK_CFGS}).index(_snippets_key(cfg))
+
+
 def _random_step(rnd, shared, allow_nocache_css=False):
     """a random step; `shared` = list of (cfg, how, obj id, cache id) objects of this history"""
     if shared and rnd.random() < 0.55:
         cfg, how, oid, cid = rnd.choice(shared)
-        abbrs = MK_ABBRS if cfg['type'] == 'markup' else ST_ABBRS
+        abbrs = MK_ABBRS + MKC_ABBRS if cfg['type'] == 'markup' else ST_ABBRS
         return _step(rnd.choice(abbrs), cfg, how, oid, cid)
     if rnd.random() < 0.5:
-        return _step(rnd.choice(MK_ABBRS), rnd.choice(MK_CFGS))
+        cfg = rnd.choice(MK_CFGS)
+        cid = _markup_cache_id(cfg) if rnd.random() < 0.5 else None
+        return _step(rnd.choice(MK_ABBRS + MKC_ABBRS), cfg, cache=cid)
     cfg = rnd.choice(ST_CFGS)
     sk = _snippets_key(cfg)
     # one cache per snippet table (ids 1..): shared by every stylesheet step of this history with that table
@@ -357,7 +439,8 @@ def gen_random(seed, n, lo=2, hi=4):
         shared = []
         for oid in range(rnd.randint(0, 2)):
             if rnd.random() < 0.5:
-                shared.append((rnd.choice(MK_CFGS), rnd.choice(['dict', 'Config']), oid, None))
+                cfg = rnd.choice(MK_CFGS)
+                shared.append((cfg, rnd.choice(['dict', 'Config']), oid, _markup_cache_id(cfg) if rnd.random() < 0.5 else None))
             else:
                 cfg = rnd.choice(ST_CFGS)
                 cid = 1 if CHECK_CACHE_ACROSS_SNIPPET_TABLES else 1 + tables.index(_snippets_key(cfg))
@@ -376,6 +459,9 @@ def gen_retention(seed, n_random):
                 else:
                     yield [_step(a, c, cache=0)], 3
                     yield [_step(a, c, 'Config', obj=0, cache=0)], 3
+    for a in MKC_ABBRS:
+        yield [_step(a, MK_CFGS[0], cache=0)], 3
+        yield [_step(a, MK_CFGS[9], 'Config', obj=0, cache=0)], 3
     yield [_step('p10', ST_CFGS[0])], 2
     yield [_step('mten', ST_CFGS[8], 'dict', obj=0)], 2
     for steps, probe in gen_random(seed + 1000, n_random):
@@ -390,7 +476,7 @@ def _precompute(cases_lists):
         for steps, probe in cases:
             probes[json.dumps([probe['abbr'], probe['cfg']], sort_keys=True)] = (probe['abbr'], probe['cfg'])
     todo = [v for k, v in sorted(probes.items()) if k not in _REF]
-    with ThreadPoolExecutor(12) as ex:
+    with ThreadPoolExecutor(14) as ex:
         list(ex.map(lambda ac: reference(ac[0], ac[1]), todo))
     return len(probes)
 
@@ -401,7 +487,9 @@ def run(tier, seed):
     g_obj = list(gen_shared_object())
     g_ind = list(gen_independent())
     g_rnd = list(gen_random(seed, 4000 if quick else 60000))
-    n_probes = _precompute([g_cache, g_obj, g_ind, g_rnd])
+    g_mkc = list(gen_markup_cache())
+    g_nest = list(gen_nested_raise())
+    n_probes = _precompute([g_cache, g_obj, g_ind, g_rnd, g_mkc, g_nest])
     rule_h = ('a case is one history (list of expand calls with their configurations and sharing) plus one probe call; the '
               'probe outcome is compared with the same call in a fresh interpreter process (%d distinct probes, one new '
               'process each); distinct by the JSON of history + probe' % n_probes)
@@ -411,6 +499,18 @@ def run(tier, seed):
                'histories of exactly 1 call + probe over the fixed pools', rule_h, exhaustive=True)
     run_parallel(c, 'bounded.c08', 'check_history', g_cache, chunk=60)
     out.append(c.done())
+    c = Clause('markup-shared-cache', 'B', 'markup call then markup probe sharing one `cache` dict (two fresh dicts / one dict / one Config): every ordered '
+               'pair of %d snippet-backed abbreviations (decorated and bare forms of the same aliases) x %d pool configurations; + the cache also '
+               'used by stylesheet calls' % (len(MKC_ABBRS), len(MKC_CFGS)), 'histories of 1 call + probe (2 + probe with stylesheet calls) over the fixed pools',
+               rule_h, exhaustive=True)
+    run_parallel(c, 'bounded.c08', 'check_history', g_mkc, chunk=200)
+    out.append(c.done())
+    c = Clause('raise-inside-resolution', 'B', 'every built-in html alias N whose definition reaches another built-in name K (own analysis of the raw '
+               'table): expand(N) with K redefined by a malformed user snippet (raises inside nested resolution), then a default-config probe of N, '
+               'of K and of every other name on N\'s chains; + the raising call through a shared Config',
+               'complete over the (N, K) pairs of the built-in html table: %d histories' % len(g_nest), rule_h, exhaustive=True)
+    run_parallel(c, 'bounded.c08', 'check_history', g_nest, chunk=100)
+    out.append(c.done())
     c = Clause('shared-config-object', 'B', 'one caller-owned dict or Config object (every pool configuration; stylesheet ones carry a cache, '
                'plus 24 cases without) used for a first call and then for the probe: every ordered pair of pool abbreviations (stylesheet: every abbreviation x 8 probe abbreviations), '
                'including abbreviations whose expansion raises (from the tokenizer, the parser, and a malformed user snippet)',
@@ -418,7 +518,7 @@ def run(tier, seed):
                % (len(MK_CFGS), len(ST_CFGS), len(MK_ABBRS), len(ST_ABBRS)), rule_h, exhaustive=True)
     run_parallel(c, 'bounded.c08', 'check_history', g_obj, chunk=100)
     out.append(c.done())
-    c = Clause('independent-calls', 'B', 'first call and probe share no argument (fresh dicts): markup x markup over the pools, stylesheet -> markup, '
+    c = Clause('independent-calls', 'B', 'first call and probe share no argument (fresh dicts): markup (every pool configuration x abbreviation) -> markup (6 configurations x 10 probe abbreviations), stylesheet -> markup, '
                'markup -> stylesheet, stylesheet -> stylesheet without cache (4 configurations x 4 abbreviations each side)', 'histories of exactly 1 call + probe over the fixed pools', rule_h, exhaustive=True)
     run_parallel(c, 'bounded.c08', 'check_history', g_ind, chunk=300)
     out.append(c.done())
@@ -427,7 +527,7 @@ def run(tier, seed):
                '%d histories of 2..4 calls + probe' % len(g_rnd), rule_h, exhaustive=False)
     run_parallel(c, 'bounded.c08', 'check_history', g_rnd, chunk=100)
     out.append(c.done())
-    del g_cache, g_obj, g_ind, g_rnd
+    del g_cache, g_obj, g_ind, g_rnd, g_mkc, g_nest
     g_ret = list(gen_retention(seed, 300 if quick else 5000))
     c = Clause('no-retention', 'B', 'every pool (abbreviation, configuration) pair as fresh dict and as shared Config, plus seeded random histories; '
                'warm-up twice, snapshot, repeat 2-3 times, snapshot', '%d call sequences' % len(g_ret),
